@@ -83,8 +83,69 @@ def _fmt_args(captured):
     return maker
 
 
+class HangAbort(BaseException):
+    """raised by the per-path CPU alarm inside the code under analysis (BaseException: the library's
+    `except Exception` blocks must not swallow it)"""
+
+
+def _guard(fn, mode, budget):
+    """Per-path non-termination guard: a path that burns `budget` CPU-seconds without returning is ended; in main mode
+    the harness then 'returns False', so the engine produces the path's concrete inputs, and the concrete replay (which
+    has its own limit) decides whether the real code really does not return on them."""
+    import functools
+    import signal
+    from crosshair.statespace import IgnoreAttempt
+    from crosshair.tracers import NoTracing
+
+    def on_alarm(signum, frame):
+        _hang_stats["tripped"] = True
+        raise HangAbort()
+
+    signal.signal(signal.SIGVTALRM, on_alarm)
+
+    def ended_by_budget():
+        with NoTracing():
+            signal.setitimer(signal.ITIMER_VIRTUAL, 0)
+            _hang_stats["aborted_paths"] += 1
+            if mode == "main":
+                _hang_stats["last_aborted"] = True
+        if mode == "main":
+            return False
+        raise IgnoreAttempt("path exceeded the per-path CPU budget")
+
+    @functools.wraps(fn)
+    def guarded(*a, **kw):
+        with NoTracing():
+            _hang_stats["last_aborted"] = False
+            _hang_stats["tripped"] = False
+            # (the alarm repeats every second: code under test with a bare `except:` may swallow the first one)
+            signal.setitimer(signal.ITIMER_VIRTUAL, budget, 1.0)
+        try:
+            r = fn(*a, **kw)
+        except HangAbort:
+            return ended_by_budget()
+        finally:
+            with NoTracing():
+                signal.setitimer(signal.ITIMER_VIRTUAL, 0)
+        with NoTracing():
+            tripped = _hang_stats["tripped"]
+        if tripped:
+            # the budget alarm fired and was swallowed by the code under test: whatever came back is not a verdict
+            return ended_by_budget()
+        return r
+    return guarded
+
+
+_hang_stats = {"aborted_paths": 0, "last_aborted": False, "tripped": False}
+
+
 def analyze(fn, mode="main", timeout=60.0, per_path_timeout=None, max_iterations=None):
     _wrap_solver()
+    _hang_stats["aborted_paths"] = 0
+    _hang_stats["last_aborted"] = False
+    raw_fn = fn
+    if per_path_timeout and not _os.environ.get("VERIF_NO_HANG_GUARD"):
+        fn = _guard(raw_fn, mode, max(5.0, 0.8 * float(per_path_timeout)))
     for k in _solver_stats:
         _solver_stats[k] = 0 if k != "secs" else 0.0
     sig = inspect.signature(fn)
@@ -92,8 +153,8 @@ def analyze(fn, mode="main", timeout=60.0, per_path_timeout=None, max_iterations
     sig = sig.replace(parameters=[p.replace(annotation=hints.get(p.name, p.annotation))
                                   for p in sig.parameters.values()],
                       return_annotation=hints.get("return", sig.return_annotation))
-    fname = getattr(getattr(fn, "__code__", None), "co_filename", "<harness>")
-    line = getattr(getattr(fn, "__code__", None), "co_firstlineno", 0)
+    fname = getattr(getattr(raw_fn, "__code__", None), "co_filename", "<harness>")
+    line = getattr(getattr(raw_fn, "__code__", None), "co_firstlineno", 0)
     if mode == "twin":
         post = ConditionExpr(ConditionExprType.POSTCONDITION, lambda b: False, fname, line, "False (reachability twin)")
     else:
@@ -132,11 +193,14 @@ def analyze(fn, mode="main", timeout=60.0, per_path_timeout=None, max_iterations
         "functions": sorted("%s:%s" % x for x in rec.seen),
         "messages": [],
         "args": None,
+        "aborted_paths": _hang_stats["aborted_paths"],
     }
     for m in res.messages:
         out["messages"].append({"type": m.state.name, "message": m.message[:2000],
                                 "tb": (m.traceback or "")[-1500:]})
     if status == VerificationStatus.REFUTED:
+        if _hang_stats["last_aborted"]:
+            out["hang_candidate"] = True    # the refuting path is one that was ended by the per-path CPU budget
         if captured:
             out["args"] = captured[-1]
         else:
